@@ -106,6 +106,43 @@ pub fn adaptor_case(ctx: &mut Ctx, closed: bool, offers: &[usize], msgs: &[M]) {
     }
 }
 
+/// the adaptor under a caller that keeps ONE buffer across several reads (`read_exact`): blocks that span messages
+pub fn exact_case(ctx: &mut Ctx, closed: bool, sizes: &[usize], msgs: &[M]) {
+    let op = format!("ws.exact {} {} {}", closed as u8, if sizes.is_empty() { "-".to_string() } else { sizes.iter().map(|o| o.to_string()).collect::<Vec<_>>().join(",") }, msgs_text(msgs));
+    let (s2, m2) = (sizes.to_vec(), msgs.to_vec());
+    let r: Option<Vec<String>> = guard(std::panic::AssertUnwindSafe(move || {
+        rt().block_on(async move {
+            use tokio::io::AsyncReadExt;
+            let (addr, h) = serve(m2, closed).await;
+            let mut c = client(addr).await;
+            let mut out = vec![];
+            for n in s2 {
+                let mut buf = vec![0u8; n];
+                match tokio::time::timeout(Duration::from_millis(250), AsyncReadExt::read_exact(&mut c, &mut buf)).await {
+                    Ok(Ok(_)) => out.push(if n == 0 { "-".to_string() } else { hex(&buf) }),
+                    Ok(Err(e)) => { out.push(if e.kind() == std::io::ErrorKind::UnexpectedEof { "EOF".to_string() } else { format!("err:{:?}", e.kind()) }); break; },
+                    Err(_) => { out.push("PENDING".to_string()); break; },
+                }
+            }
+            drop(c);
+            let _ = h.await;
+            out
+        })
+    }));
+    let res = match &r { None => "panic".to_string(), Some(v) if v.is_empty() => "none".to_string(), Some(v) => v.join("+") };
+    ctx.case(&op, &res);
+    match &r {
+        None => ctx.violation("c20/adaptor/panic", "the adaptor panicked when read into a partly filled buffer", &op, "bytes", "panic"),
+        Some(v) => {
+            let want: Vec<u8> = msgs.iter().filter_map(|m| if let M::B(b) = m { Some(b.clone()) } else { None }).flatten().collect();
+            let got: Vec<u8> = v.iter().filter(|s| *s != "-" && *s != "PENDING" && *s != "EOF" && !s.starts_with("err:")).flat_map(|s| unhex(s)).collect();
+            if !want.starts_with(&got) || v.iter().any(|s| s.starts_with("err:")) {
+                ctx.violation("c20/adaptor/bytes", "the adaptor delivered bytes that are not a prefix of the concatenated binary payloads", &op, &hex(&want), &res);
+            }
+        },
+    }
+}
+
 /// connection level: frames distributed over binary messages in every way; results must equal the TCP results
 pub fn session_case(ctx: &mut Ctx, frames: &[Vec<u8>], msgs: &[M], label: &str) {
     let compressed = false; // the relay speaks uncompressed
@@ -282,6 +319,10 @@ pub fn run(ctx: &mut Ctx) {
                     session_case(ctx, &f, &parse_msgs(msgs), "replay");
                     CLOSE_CODE.store(0, std::sync::atomic::Ordering::Relaxed);
                 },
+                ["ws.exact", c, sizes, msgs] => {
+                    let o: Vec<usize> = if *sizes == "-" { vec![] } else { sizes.split(',').filter_map(|x| x.parse().ok()).collect() };
+                    exact_case(ctx, *c == "1", &o, &parse_msgs(msgs));
+                },
                 ["ws.write", frames] => write_case(ctx, &frames.split('+').map(unhex).collect::<Vec<_>>()),
                 ["ws.writec", frames] => write_case_m(ctx, true, &frames.split('+').map(unhex).collect::<Vec<_>>()),
                 ["ws.backpressure", n] => backpressure_case(ctx, n.parse().unwrap_or(3000)),
@@ -315,6 +356,17 @@ pub fn run(ctx: &mut Ctx) {
         let offers: Vec<usize> = (0..600).map(|_| match st { 0 => 1 + ctx.rng.below(9) as usize, 1 => 1 + ctx.rng.below(500) as usize, _ => 6120 }).collect();
         let cl = ctx.rng.chance(1, 2);
         adaptor_case(ctx, cl, &offers, &msgs);
+    }
+    // read_exact over message boundaries (size byte, then body; blocks larger than a message; text and ping in between)
+    {
+        let stream: Vec<u8> = (1..=40u8).collect();
+        for cuts in [vec![2usize, 40], vec![1, 5, 6, 30, 40], vec![40], vec![3, 4, 5, 6, 7, 8, 40]] {
+            let mut msgs = vec![]; let mut a = 0;
+            for c in cuts { msgs.push(M::B(stream[a..c].to_vec())); if c == 5 { msgs.push(M::Text); } if c == 6 { msgs.push(M::Ping); } a = c; }
+            for sizes in [vec![1usize, 3, 1, 3, 8, 24], vec![4; 10], vec![7, 7, 7, 7, 7, 5], vec![40], vec![1; 40], vec![39, 2]] {
+                for closed in [true, false] { exact_case(ctx, closed, &sizes, &msgs); }
+            }
+        }
     }
     // connection level: frames x partitions into messages
     let pool = build_pool(false);
